@@ -30,7 +30,7 @@ RULE = ('tables: S(12)/S(16) ∪ F ∪ P ∪ W as in C03; per table every argume
 ASSUMPTIONS = ['R1 derivation is the definition (all()/any() over rows); on wide tables the '
                'equivalent intersection-of-row-sets form, cross-checked in the self test',
                'labels are opaque strings; two labelings explored on S and F']
-HITS = ('hit_multi_arg', 'hit_sibling_schedule')
+HITS = ('hit_multi_arg', 'hit_sibling_schedule', 'hit_str_argument')
 BUDGET = {'quick': 240, 'thorough': 3000}
 
 BOUNDARY = (0, 1, 2, 28, 29, 30, 31, 32, 58, 59, 60, 61, 62, 63, 64, 65, 66, 126, 127, 128, 129)
@@ -134,6 +134,13 @@ def check_case(case, ctr):
                                   [ctx.objects, ctx.properties]))
     if [tuple(r) for r in ctx.bools] != case.rows:
         V.append(common.violation(ID, 'bools-stored', case.ident(), None, None))
+    got = ctx.bools
+    if isinstance(got, list):          # what is handed out is the caller's to change
+        got.reverse()
+        got.append(())
+        if [tuple(r) for r in ctx.bools] != case.rows:
+            V.append(common.violation(ID, 'bools-stored', case.ident(when='after mutating the returned list'),
+                                      case.rows, ctx.bools))
     wide = max(case.n, case.m) > 20
     oblock = pblock = ()
     if case.tag[0] == 'P':
@@ -208,6 +215,29 @@ def run_wa(shard, tier):
     return {'counters': dict(ctr), 'violations': V, 'samples': samples, 'outcomes': []}
 
 
+def check_char_case(case, ctr):
+    """One-character labels: a plain str is a collection of labels too."""
+    V = []
+    ref, ctx = case.ref, case.ctx
+    for arg in powerset(range(case.n)):
+        s = ''.join(case.objs[i] for i in reversed(arg))
+        ctr['calls'] += 1
+        exp = case.plab(ref.intent_of(arg))
+        if ctx.intension(s) != exp or ctx.intension(s + s) != exp:
+            V.append(common.violation(ID, 'intension-exact', case.ident(arg=s, form='str'), exp,
+                                      ctx.intension(s)))
+            break
+    for arg in powerset(range(case.m)):
+        s = ''.join(case.props[j] for j in reversed(arg))
+        ctr['calls'] += 1
+        exp = case.olab(ref.extent_of(arg))
+        if ctx.extension(s) != exp:
+            V.append(common.violation(ID, 'extension-exact', case.ident(arg=s, form='str'), exp,
+                                      ctx.extension(s)))
+            break
+    return V
+
+
 def run_shard(shard, tier):
     if shard[0] == 'WA':
         try:
@@ -219,7 +249,21 @@ def run_shard(shard, tier):
             return {'counters': {'evaluations': 1}, 'samples': [], 'outcomes': [],
                     'violations': [common.library_exception(ID, case.ident(), e)]}
     both = shard[0] != 'P'
-    return e1.run_shard_generic(shard, tier, ID, check_case, both_labelings=both)
+    res = e1.run_shard_generic(shard, tier, ID, check_case, both_labelings=both)
+    if shard[0] == 'S' and shard[1] * shard[2] <= 9:
+        ctr = collections.Counter()
+        for n, m, rows, tag in space.tables_of_shard(shard):
+            case = e1.Case(rows, tag, space.CHAR)
+            try:
+                vs = check_char_case(case, ctr)
+            except Exception as e:
+                vs = [common.library_exception(ID, case.ident(), e)]
+            ctr['evaluations'] += 1
+            ctr['hit_str_argument'] += 1
+            res['violations'].extend(vs[:2])
+        for k_, v_ in ctr.items():
+            res['counters'][k_] = res['counters'].get(k_, 0) + v_
+    return res
 
 
 def main(tier):
@@ -228,6 +272,12 @@ def main(tier):
 
 def replay(v):
     c = v['case']
+    if c.get('labeling') == space.CHAR:
+        case = e1.case_from_ident(c)
+        try:
+            return check_char_case(case, collections.Counter())
+        except Exception as e:
+            return [common.library_exception(ID, c, e)]
     if 'arg' in c and v['clause'] in ('intension-exact', 'extension-exact', 'raw-form'):
         case = e1.case_from_ident(c)
         arg = c['arg']
